@@ -16,7 +16,7 @@ if not ok:
 dst = f"/verif/seeded/{sid}"
 os.makedirs(dst, exist_ok=True)
 for f in ("patch.diff", "demo.py", "notes.md"):
-    if os.path.exists(f"{src}/{f}"):
+    if os.path.exists(f"{src}/{f}") and os.path.abspath(src) != os.path.abspath(dst):
         shutil.copy(f"{src}/{f}", f"{dst}/{f}")
 notes = open(f"{src}/notes.md").read() if os.path.exists(f"{src}/notes.md") else ""
 meta = {
